@@ -209,6 +209,8 @@ class Attr:
             if k == 'idents':
                 return '#[repr(%s)]' % ', '.join(i.rust() for i in v)
             return '#[repr(align(8))]' if k == 'unparsable' else '#[repr]'
+        if self.kind == 'bare':
+            return '#[%s]' % self.path.rust()
         return self.src
 
     def sexp(self):
@@ -221,6 +223,8 @@ class Attr:
             if k == 'idents':
                 return '(repr idents %s)' % ' '.join(i.sexp() for i in v)
             return '(repr %s)' % k
+        if self.kind == 'bare':
+            return '(bare %s)' % self.path.sexp()
         return '(other)'
 
 
@@ -234,6 +238,16 @@ class Field:
         if isinstance(self.member, Ident):
             return '%s%s: %s' % (a, self.member.rust(), self.ty)
         return '%s%s' % (a, self.ty)
+
+    def segments(self):
+        segs = [('attr', True, b.rust()) for b in self.bodies]
+        if self.extra_attrs.strip():
+            segs.append(('attr', False, self.extra_attrs.strip()))
+        if isinstance(self.member, Ident):
+            segs.append(('toks', None, '%s: %s' % (self.member.rust(), self.ty)))
+        else:
+            segs.append(('toks', None, self.ty))
+        return segs
 
     def sexp(self):
         m = '(named %s)' % self.member.sexp() if isinstance(self.member, Ident) \
@@ -257,6 +271,28 @@ class Variant:
         a = ''.join(b.rust() + ' ' for b in self.bodies) + self.extra_attrs
         d = ' = %s' % self.discr[0] if self.discr else ''
         return '%s%s%s%s' % (a, self.ident.rust(), self.fields_rust(), d)
+
+    def field_segments(self):
+        if self.shape == 'unit':
+            return []
+        o, c = ('{', '}') if self.shape == 'named' else ('(', ')')
+        segs = [('toks', None, o)]
+        for i, f in enumerate(self.fields):
+            if i:
+                segs.append(('toks', None, ','))
+            segs += f.segments()
+        segs.append(('toks', None, c))
+        return segs
+
+    def segments(self):
+        segs = [('attr', True, b.rust()) for b in self.bodies]
+        if self.extra_attrs.strip():
+            segs.append(('attr', False, self.extra_attrs.strip()))
+        segs.append(('toks', None, self.ident.rust()))
+        segs += self.field_segments()
+        if self.discr:
+            segs.append(('toks', None, '= ' + self.discr[0]))
+        return segs
 
     def sexp(self):
         d = '(d %s %d)' % (toks(self.discr[0]), self.discr[1]) if self.discr else 'none'
@@ -314,6 +350,44 @@ class Item:
         if v.shape == 'tuple':
             return '%s%s%s;' % (head, v.fields_rust(), self.where_rust())
         return '%s%s;' % (head, self.where_rust())
+
+    def segments(self):
+        """The item as (kind, is_derive_where, source) segments in source order;
+        the first len(self.attrs) segments are the item's own attributes."""
+        segs = [('attr', x.kind == 'dw', x.rust()) for x in self.attrs]
+        head = '%s%s %s%s' % (self.vis, self.kind, self.ident.rust(), self.generics_rust())
+        if self.kind == 'enum':
+            segs.append(('toks', None, head + self.where_rust() + ' {'))
+            for i, v in enumerate(self.variants):
+                if i:
+                    segs.append(('toks', None, ','))
+                segs += v.segments()
+            segs.append(('toks', None, '}'))
+            return segs
+        v = self.variants[0]
+        if v.shape == 'named' or self.kind == 'union':
+            segs.append(('toks', None, head + self.where_rust()))
+            fs = v.field_segments() if v.shape != 'unit' else [('toks', None, '{'), ('toks', None, '}')]
+            return segs + fs
+        if v.shape == 'tuple':
+            segs.append(('toks', None, head))
+            segs += v.field_segments()
+            segs.append(('toks', None, self.where_rust() + ';'))
+            return segs
+        segs.append(('toks', None, head + self.where_rust() + ';'))
+        return segs
+
+    def segs_sexp(self):
+        out = []
+        for kind, isdw, src in self.segments():
+            if kind == 'attr':
+                out.append('(a %d %s)' % (bool(isdw), toks(src)))
+            else:
+                out.append('(s %s)' % toks(src))
+        return '(' + ' '.join(out) + ')'
+
+    def rust1(self):
+        return ' '.join(src for _, _, src in self.segments())
 
     def sexp(self):
         g = '(g (%s) (%s) %d)' % (' '.join(p.sexp() for p in self.params),
